@@ -18,3 +18,13 @@ chk("C05", "model_checking",
     "From every base state (3 scenarios incl. one with a pool, a staked invitee and a funded contract) ~1000 single-transaction templates are offered, covering every tx type with a recipient x 6 signer classes x 15 target relationship classes; any address other than the signer whose balance+stake+contract stake is lower than in the tx-less block is a violation unless it is exactly one of the three named exceptions (all three are observed).",
     "Only the inclusion block is compared (delayed effects a signer chooses for itself are outside the claim); transactions that validation refuses never reach a block, so a missing relationship check shows up as an admitted tx with a foreign loss.",
     "DESIGN.md 5/C05", "chainmc")
+chk("C06", "model_checking",
+    "explicit-state BFS over histories of real block transitions with the included-transaction history as part of the state; every earlier tx re-offered at every later state",
+    "All histories up to the depth bound over 10 actions (sends that compete and empty accounts, nonce gap, future-epoch tx, identity txs, empty block, a macro that runs a whole ceremony to the epoch change with dust clearing). At every transition every previously included tx is re-offered to the real pool, to the strict processTxs on a fresh check state (pool bypass) and to the building path; all inserted tx lists are checked for duplicates, per-(sender,epoch) nonce continuity and epoch equality.",
+    "Reorg histories are exercised by C08's driver.",
+    "DESIGN.md 5/C06", "chainmc")
+chk("C10", "model_checking",
+    "explicit-state BFS over histories of identity-changing events; incremental validator view of a never-restarted replica vs fresh load, getter by getter",
+    "All histories up to the depth bound over 18 identity-event actions (switch ranges lowered to 2 so that all batchings into identity-update blocks occur). After every block a replica that followed the whole history from genesis without restart, the replica restarted one block earlier, and the ForCheck/Readonly clones are compared with NewValidatorsCache(...).Load() on the same committed identity state over every public getter (sizes, per-address flags, pool sizes, FindSubIdentity for all nonces, committees for 3 seeds x 3 steps x 3 limits); the stored registry is compared with the identity ledger.",
+    "State key = chain state + fingerprint of the live view, so histories are merged only when both coincide.",
+    "DESIGN.md 5/C10", "chainmc")
